@@ -82,10 +82,10 @@ PLANS["C09"] = {
 
 PLANS["C18"] = {
     "jobs": {
-        "quick": [("", "release", 9030), ("", "dev", 3010)],
-        "thorough": [("", "release", 301 * 1500), ("", "dev", 301 * 300)],
+        "quick": [("", "release", 301 * 7 * 5), ("", "dev", 301 * 7 * 2)],
+        "thorough": [("", "release", 301 * 7 * 300), ("", "dev", 301 * 7 * 60)],
     },
-    "rule": "a case is a byte string of length idx mod 301 (every length 0..300 in every run; content random / all-zero / all-ones / "
+    "rule": "a case is a byte string of length idx mod 301 (every length 0..300 in every run; content random / all-zero / all-ones / boundary-digit (Z85 digits 0 and 84, 5- and 6-bit groups all-zero or all-one) / "
             "structured / printable) encoded by base32, base32hex, base64 and zero85 from one of six input forms (string, byte vector, "
             "nested vectors, aligned bit-string, bit-string sliced at bit offset 1..7), compared with independent reference encoders, "
             "decoded back, plus three mutated/arbitrary texts per codec and >bitstr-acceptance probes. distinct = distinct (length, "
@@ -121,4 +121,19 @@ PLANS["C01"] = {
                 need_set("planted_kinds_matched", 10), need("empty_bodies", 10000), need("zero_trip_loops", 5000),
                 need("jump_distance:Jump:0", 100), need("jump_distance:Loop:0", 100), need("locals_in_loops", 500),
                 need("redefinitions", 1000), need("recursive_defs", 1000), need_set("opcodes", 17)],
+}
+
+PLANS["C15"] = {
+    "jobs": {
+        "quick": [("", "release", 40000), ("", "dev", 6000)],
+        "thorough": [("", "release", 1600000), ("", "dev", 160000)],
+    },
+    "rule": "a case is one program (even indices: a G1 control-flow program incl. failing and divergent ones; odd indices: a G2 typed "
+            "word-soup program over the whole dictionary with binary input set) driven six ways from identical fresh interpreters: "
+            "{eval, compile+run, compile+step*} x {recording off, on}; the six observations (result or error, visible stack, every "
+            "variable, captured stdout) must be identical. distinct = distinct programs after literals are abstracted away",
+    "assumptions": ["programs that hit the 40000-instruction budget in any drive mode are skipped and counted (the budget is part of "
+                    "the configuration, not of the property)"],
+    "require": [need("programs_ok", 10000), need("programs_failing", 1000), need_set("reverse_step_variants", 14), need_set("opcodes", 18),
+                need_set("features", 30), need_set("error_kinds_compared", 8)],
 }
